@@ -78,6 +78,8 @@ FAMILIES = {
                         MaxRounds=3, MaxH=5),
     "p_scopecycle": fam(Prog="ProgScopeCycle", Ctors=["cyclic", "limits"], Ops=["set"], MaxVars=2, MaxNodes=8, MaxObs=2, MaxActs=10,
                         MaxRounds=3, MaxH=16),
+    "p_subs": fam(Prog="ProgSubs", Ops=["set"], MaxVars=1, MaxNodes=1, MaxObs=2, MaxSubs=3, MaxActs=10, MaxRounds=3),
+    "p_panic": fam(Prog="ProgPanic", Ops=["set"], Effs=["panic", "h_panic"], MaxVars=1, MaxNodes=2, MaxObs=2, MaxSubs=2, MaxActs=10, MaxRounds=4),
     "p_xjoin": fam(Prog="ProgXJoin", Ops=["set"], MaxVars=2, MaxNodes=5, MaxObs=2, MaxActs=11, MaxRounds=4, MaxH=16),
     # expert constructions
     "xjoin_s": fam(Ctors=["var", "nvar", "xjoin"], MaxVars=3, MaxNodes=5, MaxObs=1, MaxActs=9, MaxRounds=3, MaxH=16),
@@ -151,12 +153,12 @@ PROPS = {
     "C06": dict(random=RND, families=plan("cut_s", "mwo4_s", "p_cutreobs", "p_refcut", sim="sim_engine")),
     "C07": dict(random=RND, families=plan("obs_s", "eff_s", "p_update", sim="sim_engine")),
     "C08": dict(random=RND, families=plan("var_s", "eff_s", "obsfx_s", "p_update", sim="sim_engine")),
-    "C09": dict(random=RND, families=plan("obs_s", "obsfx_s", sim="sim_engine")),
-    "C10": dict(random=RND, families=plan("obs_s", "obsfx_s", sim="sim_engine")),
+    "C09": dict(random=RND, families=plan("obs_s", "obsfx_s", "p_subs", sim="sim_engine")),
+    "C10": dict(random=RND, families=plan("obs_s", "obsfx_s", "p_subs", sim="sim_engine")),
     # thorough additionally audits the snapshots of the repository's own 74 tests (stage_owntests)
     "C11": dict(random=RND, families=plan("obs_s", "bind_s", "bindalt_s", "bindalt_s@release", sim="sim_engine"), stage_modules_thorough=["stage_owntests"]),
     "C12": dict(random=RND, families=plan("own_s", "ownbind_s", "obsfx_s", "eff_s", sim="sim_engine")),
-    "C13": dict(families=plan("panic_s"), profiles=["debug", "release"]),
+    "C13": dict(families=plan("panic_s", "p_panic"), profiles=["debug", "release"]),
     "C14": dict(families=plan("xjoin_s", "xsum_s", "p_xsum", "p_xjoin", "p_xcell", sim="sim_expert")),
     "C15": dict(stage_modules=["stage_mapops"]),
     # the per-key node mechanism (cell + make_stale under connect/disconnect) is also explored at engine level
